@@ -44,20 +44,24 @@ def qr(x, /, *, mode="reduced") -> QRResult:
     if x.dtype not in _floating_dtypes:
         raise TypeError("Only floating-point dtypes are allowed in qr")
 
+    _check_tsqr_chunks(x, "qr")
+
+    Q, R, _, _, _ = tsqr(x)
+    return QRResult(Q, R)
+
+
+def _check_tsqr_chunks(x, fname):
     if x.numblocks[1] > 1:
         raise ValueError(
-            "qr only supports tall-and-skinny (single column chunk) arrays. "
+            f"{fname} only supports tall-and-skinny (single column chunk) arrays. "
             "Consider rechunking so there is only a single column chunk."
         )
 
     if any(c < x.shape[1] for c in x.chunks[0]):
         raise ValueError(
-            "qr requires every row chunk to have at least as many rows as the array has columns. "
+            f"{fname} requires every row chunk to have at least as many rows as the array has columns. "
             "Consider rechunking so that row chunks (including the last) are larger."
         )
-
-    Q, R, _, _, _ = tsqr(x)
-    return QRResult(Q, R)
 
 
 def tsqr(x, compute_svd=False, finalize_svd=True):
@@ -231,9 +235,11 @@ def svd(x, /, *, full_matrices=True) -> SVDResult:
     nb = x.numblocks
     # TODO: optimize case nb[0] == nb[1] == 1
     if nb[0] > nb[1]:
+        _check_tsqr_chunks(x, "svd")
         _, _, U, S, Vh = tsqr(x, compute_svd=True)
         truncate = x.shape[0] < x.shape[1]
     else:
+        _check_tsqr_chunks(x.T, "svd")
         _, _, Vht, S, Ut = tsqr(x.T, compute_svd=True)
         U, S, Vh = Ut.T, S, Vht.T
         truncate = x.shape[0] > x.shape[1]
